@@ -113,6 +113,27 @@ def im_repr(m):
     }
 
 
+RECV_FIELDS = ("gap_pos", "cum", "plen", "len", "gap_coords", "gap_lengths")
+
+
+def im_receiver(m):
+    """Cheap re-projection of a map that calls were made ON (representation and per-gap runs)."""
+    obs = {}
+    try:
+        obs.update(im_repr(m))
+    except Exception as ex:
+        obs["len"] = f"raised:{type(ex).__name__}"
+    obs["gap_coords"] = _try(lambda: pairs(m.get_gap_coordinates()))
+    obs["gap_lengths"] = _try(lambda: [int(x) for x in m.get_gap_lengths().tolist()])
+    return obs
+
+
+def receiver_diff(m, exp):
+    """Fields of Describe(string) the receiver no longer reports ([] = unchanged)."""
+    obs = im_receiver(m)
+    return [k for k in RECV_FIELDS if obs.get(k) != exp[k]], obs
+
+
 def _try(f):
     try:
         return f()
@@ -301,6 +322,14 @@ def build_featuremap(mdef, ctor):
             return None
         return FeatureMap.from_locations(locations=[(s, e) for s, e, _ in spans], parent_length=P)
     raise ValueError(ctor)
+
+
+def fm_snapshot(m):
+    """What a FeatureMap denotes right now (entries, parent length, length)."""
+    try:
+        return [expand_spans(list(m.spans)), int(m.parent_length), len(m)]
+    except Exception as ex:
+        return [f"raised:{type(ex).__name__}"]
 
 
 def fm_project(r, act):
